@@ -9,7 +9,7 @@ for d in seeded/*/; do
   rsync -a --exclude .git /repo/ $scratch/src/
   mkdir -p $scratch/verif; cp known_findings.jsonl $scratch/verif/
   if ! (cd $scratch/src && patch -p1 -s --no-backup-if-mismatch -i /verif/$d/patch.diff) 2>/dev/null; then echo "$n: PATCH-STALE"; rm -rf $scratch; continue; fi
-  out=$(./bin/xcheck -prop $prop -repo $scratch/src -verif $scratch/verif 2>&1)
+  out=$(${XCHECK:-/verif/bin/xcheck} -prop $prop -repo $scratch/src -verif $scratch/verif 2>&1)
   if echo "$out" | grep -q "^VIOLATION"; then echo "$n: FIRES $(echo "$out" | grep -E '^(VIOLATED|UNDECIDED)' | head -2 | cut -c1-120 | tr '\n' ' ')"; else echo "$n: silent ($(echo "$out" | grep -c CHECKER) checker errors)"; fi
   rm -rf $scratch
 done
